@@ -10,6 +10,15 @@ pub struct RelocInfo {
     pub relative: Vec<(u64, u64)>,
     /// ET_DYN without PT_INTERP: relocated by tiny-start itself
     pub self_relocating: bool,
+    /// addresses of the compiler-generated `DW.ref.*` pointers (writable section, never written by any program)
+    pub never_written: Vec<u64>,
+}
+
+impl RelocInfo {
+    /// May the slot at link address `off` be compared strictly with base + addend?
+    pub fn strict(&self, off: u64) -> bool {
+        self.relro.map(|(a, b)| off >= a && off + 8 <= b).unwrap_or(false) || self.never_written.contains(&off)
+    }
 }
 
 fn u16at(b: &[u8], o: usize) -> Option<u64> {
@@ -71,6 +80,28 @@ pub fn read(path: &str) -> Option<RelocInfo> {
                 if r_info & 0xffff_ffff == 8 {
                     info.relative.push((r_offset, r_addend));
                 }
+            }
+        }
+    }
+    // .symtab (when present): DW.ref.* objects
+    let (shoff, shentsize, shnum) = (u64at(&b, 40)? as usize, u16at(&b, 58)? as usize, u16at(&b, 60)? as usize);
+    for i in 0..shnum {
+        let sh = shoff + i * shentsize;
+        if u32at(&b, sh + 4) != Some(2) {
+            continue;
+        }
+        let (off, size, link, entsize) = (u64at(&b, sh + 24)? as usize, u64at(&b, sh + 32)? as usize, u32at(&b, sh + 40)? as usize, u64at(&b, sh + 56)? as usize);
+        let strsh = shoff + link * shentsize;
+        let stroff = u64at(&b, strsh + 24)? as usize;
+        if entsize < 24 {
+            continue;
+        }
+        for k in 0..size / entsize {
+            let sy = off + k * entsize;
+            let (name, value) = (u32at(&b, sy)? as usize, u64at(&b, sy + 8)?);
+            let n = b.get(stroff + name..)?;
+            if n.starts_with(b"DW.ref.") {
+                info.never_written.push(value);
             }
         }
     }
